@@ -70,6 +70,12 @@ def mon_c04(cfg, steps):
                     out.append({"step": s.idx, "what": "LiquidStake totals: (%d,%d) -> (%d,%d) for paid %d minted %d" % (n1, l1, s.st["N"], s.st["L"], paid, m)})
                 if l1 > 0 and n1 > 0 and n1 * s.st["L"] > s.st["N"] * l1:
                     out.append({"step": s.idx, "what": "LiquidStake lowered the redemption rate"})
+                # what the staker is handed is what was minted: the LST leaves the contract in exactly one message of exactly
+                # the floor amount (a bank send or an IBC transfer), so no rounding or delivery path yields more than was paid for
+                lst = s.pre["lst"]
+                handed = [x.get("amount") for x in s.msgs if x["facet"] in ("msg:send", "msg:bank", "msg:transfer") and x.get("denom") == lst]
+                if handed != [m]:
+                    out.append({"step": s.idx, "what": "LiquidStake of %d at totals (%d,%d) minted %d but hands out %r of the LST" % (paid, n1, l1, m, handed)})
             elif k == "submit":
                 p = s.pre["pending"]; b = s.pre["batches"].get(p)
                 nb = s.st["batches"].get(p)
@@ -218,6 +224,11 @@ def mon_c08(cfg, steps):
             bad("forced recovery by a non-admin (admin %s)" % pre["admin"])
         if k == "breaker" and who != pre["admin"] and who not in pre["monitors"]:
             bad("neither admin nor monitor")
+        if k == "updcfg" and t[9] != "-" and s.st is not None:
+            # the monitors the breaker answers to are the ones the admin last configured: a supplied list is in force
+            want = [unhex(x).decode("utf-8", "replace") for x in t[9][1:-1].split(",") if x]
+            if s.st["monitors"] != want:
+                out.append({"step": s.idx, "what": "UpdateConfig(monitors=%r) was accepted but the configured monitors are %r" % (want, s.st["monitors"])})
         if k == "accept_own" and who != pre["pending_owner"]:
             bad("not the nominated account %s" % pre["pending_owner"])
         if k == "rewards" and who != b32.hook_sender(pre["protocol"]["channel"], pre["native"]["collector"], pre["protocol"]["prefix"]):
@@ -256,9 +267,13 @@ def mon_c10(cfg, steps):
         k = t[5]
         if s.pre["stopped"] and k in SIX and s.res != "err":
             out.append({"step": s.idx, "what": "%s returned %s while the contract is halted" % (k, s.res)})
+        who = unhex(t[3]).decode("utf-8", "replace")
+        if k == "breaker" and s.res == "err" and (who == s.pre["admin"] or who in (s.pre.get("monitors") or [])):
+            # halting is open to the admin and to ANY configured monitor, wherever it stands in the list
+            out.append({"step": s.idx, "what": "CircuitBreaker refused for %s, who is %s (monitors %r)" % (
+                who, "the admin" if who == s.pre["admin"] else "a configured monitor", s.pre.get("monitors"))})
         if s.res != "ok" or s.st is None:
             continue
-        who = unhex(t[3]).decode("utf-8", "replace")
         if k == "breaker":
             if strip(s.st, "stopped") != strip(s.pre, "stopped") or not s.st["stopped"] or s.msgs:
                 out.append({"step": s.idx, "what": "CircuitBreaker changed more than the halted flag"})
@@ -408,6 +423,15 @@ def mon_c05(cfg, steps):
             nb = s.st["batches"].get(bid)
             if b["status"] == "received" and nb is not None and (nb["received"] != b["received"] or nb["total"] != b["total"]):
                 out.append({"step": s.idx, "what": "batch %d had received %d (total %d); after %s it records %s (total %s): payouts now depend on withdrawal timing" % (bid, b["received"], b["total"], k, nb["received"], nb["total"])})
+        if k == "unstaked":
+            # what the batch records as received is what actually arrived (equal to, below or above the expected amount):
+            # the payouts are shares of that figure
+            bid = int(t[6]); nb = s.st["batches"].get(bid)
+            D = pre["protocol"]["denom"]
+            came = [int(x.split(":")[1]) for x in t[4][1:-1].split(",") if x and unhex(x.split(":")[0]).decode("utf-8", "replace") == D]
+            if nb is not None and came and nb["received"] != came[0]:
+                out.append({"step": s.idx, "what": "ReceiveUnstakedTokens delivered %d of the staked asset to batch %d (expected %s) but the batch records %s as received" % (
+                    came[0], bid, (pre["batches"].get(bid) or {}).get("expected"), nb["received"])})
         if k == "unstake":
             a = sum(int(x.split(":")[1]) for x in t[4][1:-1].split(",") if x)
             p = pre["pending"]
@@ -964,6 +988,8 @@ def mg_view(s):
             d["ver"] = (unhex(o[1]).decode("utf-8", "replace"), unhex(o[2]).decode("utf-8", "replace"))
         elif o[0] == "mg.lpkt":
             d["lpkts"][int(o[1])] = (int(o[2]), int(o[3]), o[4])
+        elif o[0] in ("mg.pkt", "mg.wait") and len(o) > 1 and o[1] == "UNREADABLE":
+            d["pkts" if o[0] == "mg.pkt" else "waits"][-1] = ("unreadable by the installed code",)
         elif o[0] == "mg.pkt":
             dn, am = o[3].split(":")
             d["pkts"][int(o[1])] = (int(o[2]), unhex(dn).decode(), int(am), unhex(o[4]).decode(), o[5])
@@ -1316,4 +1342,26 @@ def mon_c02(cfg, steps):
     return out
 
 
+def mon_migrate_ledger(cfg, steps):
+    """the ledger clauses of the migration monitor, for the properties that speak about tracked transfers (C01, C02, C07):
+    an upgrade keeps every tracked and pending transfer with its sequence, amount and status and touches nothing else"""
+    keys = ("tracked transfers", "pending replies", "unrelated records", "rewrote records", "refused migration changed")
+    return [f for f in mon_c18(cfg, steps) if any(k in f["what"] for k in keys)]
+
+
+def mon_migrate_roles(cfg, steps):
+    """C09 across an upgrade: the channel, the staker and the reward collector (hence the two ibc-hooks accounts the
+    contract answers to) are the same before and after a migration"""
+    keys = ("staker", "collector", "channel")
+    return [f for f in mon_c18(cfg, steps) if ("config" in f["what"]) and any(k in f["what"] for k in keys)]
+
+
+def with_migration(mon):
+    return lambda cfg, steps: mon(cfg, steps) + mon_migrate_ledger(cfg, steps)
+
+
 MONITORS = {"C02": mon_c02, "C16": mon_c16, "C19": mon_c19, "C20": mon_c20, "C04": mon_c04, "C15": mon_c15, "C03": mon_c03, "C08": mon_c08, "C10": mon_c10, "C11": mon_c11, "C12": mon_c12, "C05": mon_c05, "C06": mon_c06, "C17": mon_c17, "C13": mon_c13, "C14": mon_c14, "C09": mon_c09, "C07": mon_c07, "C18": mon_c18}
+MONITORS["C02"] = with_migration(mon_c02)
+MONITORS["C07"] = with_migration(mon_c07)
+MONITORS["C01"] = mon_migrate_ledger
+MONITORS["C09"] = (lambda cfg, steps: mon_c09(cfg, steps) + mon_migrate_roles(cfg, steps))
